@@ -57,7 +57,7 @@ ASSUMPTIONS = [
 ]
 RULE = ('endpoints-parse: rendered well-formed address lists plus mutations (dropped keys, doubled "=", prefix in a '
         'later component, launchd/unknown transports, session/system).  lifecycle-*: a base history = address list '
-        'with a chosen unreachable prefix, a scripted handshake (REJECTED/ERROR/DATA steps, unix-fd negotiation, cut '
+        'with a chosen unreachable prefix (each failing with one of 14 exception classes: refused, other ConnectErrors, DNSLookupError, timeouts, OSError, Exception, CancelledError, ...), a scripted handshake (REJECTED/ERROR/DATA steps, unix-fd negotiation, cut '
         'lines), Hello reply or error (whole or cut), 0..14 user operations and replies/expiries on the ready '
         'connection, optionally the close; close-everywhere = every prefix of a base history followed by the close; '
         'reactions = every assignment of the four reactions to a fixed skeleton of callbacks and calls.  distinct = '
@@ -235,6 +235,7 @@ class Run:
         self.ifaces = {}
         self.unexpected = []
         self.double_fire = None
+        self.stalled = None
 
     # -- helpers ---------------------------------------------------------------------------------------------
     def new_cb(self, late=False):
@@ -399,12 +400,17 @@ class Run:
 
     def op_af(self, st):
         M = self.M
-        self.cur_factory.clientConnectionFailed(self.cur_connector, M.Failure(M.tie.ConnectionRefusedError()))
+        self.cur_factory.clientConnectionFailed(self.cur_connector, M.Failure(make_failure_exc(M, st.get('exc'))))
         before = self.n_attempts_seen
         self.note_attempts()
         if self.n_attempts_seen == before:
             self.phase = 'exhausted'
             self.concluded_by = 'exhausted'
+            if self.sc.get('entries') is not None and self.n_attempts_seen < len(self.sc['entries']):
+                # addresses remain, yet nothing is outstanding any more: the rest of the script cannot be played
+                self.stalled = 'attempt #%d failed with %s; %d of %d addresses tried, no attempt outstanding' % (
+                    self.n_attempts_seen, st.get('exc') or 'ConnectionRefusedError', self.n_attempts_seen,
+                    len(self.sc['entries']))
 
     def op_ac(self, st):
         M = self.M
@@ -640,6 +646,36 @@ class Run:
                    nats(reg), ','.join(prox) or '-'))
 
 
+# Every way an endpoint's connect Deferred can fail is an unreachable address: (model kind, exception).
+FAILURES = [
+    ('refused', 'ConnectionRefusedError'),
+    ('connectError', 'ConnectError'), ('connectError', 'NoRouteError'), ('connectError', 'ConnectBindError'),
+    ('connectError', 'UnknownHostError'),
+    ('dnsLookup', 'DNSLookupError'),
+    ('timeout', 'TimeoutError'), ('timeout', 'TCPTimedOutError'), ('timeout', 'builtins.TimeoutError'),
+    ('other', 'builtins.Exception'), ('other', 'builtins.OSError'), ('other', 'builtins.ValueError'),
+    ('other', 'CancelledError'), ('other', 'ConnectionLost'),
+]
+
+
+def make_failure_exc(M, name):
+    if not name:
+        return M.tie.ConnectionRefusedError()
+    if name.startswith('builtins.'):
+        import builtins
+        cls = getattr(builtins, name[9:])
+        return cls(5, 'verif: attempt failed') if cls is OSError else cls('verif: attempt failed')
+    if name == 'CancelledError':
+        from twisted.internet import defer
+        return defer.CancelledError()
+    return getattr(M.tie, name)('verif: attempt failed')
+
+
+def af_step(rng):
+    why, exc = rng.choice(FAILURES)
+    return {'op': 'af', 'why': why, 'exc': exc}
+
+
 def cut_at(data, permille):
     return max(1, min(len(data) - 1, len(data) * permille // 1000))
 
@@ -654,7 +690,7 @@ def execute(M, sc):
         if run.parse_error is None:
             for st in sc['steps']:
                 getattr(run, 'op_' + st['op'])(st)
-                if run.unexpected:
+                if run.unexpected or run.stalled:
                     break
             run.timers_now = run.timer_indices()
             run.final = run.state()
@@ -672,7 +708,9 @@ def execute(M, sc):
 
 def step_tokens(st):
     op = st['op']
-    if op in ('af', 'ac'):
+    if op == 'af':
+        return ['af:' + st.get('why', 'refused')]
+    if op == 'ac':
         return [op]
     if op == 'auth':
         return list(st['tok'])
@@ -743,6 +781,12 @@ def judge(run, sc):
         return out
     entries = sc.get('entries')
     nfired = len(run.fired)
+    if run.stalled:
+        # every kind of failure of an address is an unreachable address: the walk must go on (or fail the Deferred)
+        return [('connect-walk-stops-at-failed-address',
+                 'the address walk stopped: %s; the connect Deferred fired %d times' % (run.stalled, nfired),
+                 {'fired': run.fired, 'attempts': [f for f in run.fx if f.startswith('at:')]},
+                 'the next listed address is tried')]
     # addresses are tried in listed order, one at a time, up to the first reachable one
     if entries is not None:
         nfail = sum(1 for st in sc['steps'] if st['op'] == 'af')
@@ -1049,13 +1093,13 @@ def gen_history(rng, tmp, want=None):
         return entries, addr, steps
     want = want or rng.choice(['ready', 'ready', 'ready', 'ready', 'hello-error', 'auth-fail', 'stall', 'exhaust', 'pending'])
     if want == 'exhaust':
-        steps += [{'op': 'af'} for _ in range(n)]
+        steps += [af_step(rng) for _ in range(n)]
         return entries, addr, steps
     j = rng.randrange(n)                 # the first reachable entry
     if want == 'pending':                # the attempt on entry j never resolves
-        steps += [{'op': 'af'} for _ in range(j)]
+        steps += [af_step(rng) for _ in range(j)]
         return entries, addr, steps
-    steps += [{'op': 'af'} for _ in range(j)] + [{'op': 'ac'}]
+    steps += [af_step(rng) for _ in range(j)] + [{'op': 'ac'}]
     unix = entries[j]['kind'] in ('unix', 'abstract')
     if want == 'auth-fail':
         return entries, addr, steps + gen_handshake(rng, unix, 'fail')
